@@ -944,6 +944,15 @@ def _gen_coercion(tier, rng):
                         for dt in _int_arrays(ft, tests):
                             k += 1
                             yield mk(col, tests, 'array', 'h5' if k % 5 == 0 else 'mem', 'module' if k % 4 == 0 else 'method', dt)
+        # unique on the colliding values themselves (a coercion of the column would merge or alter them)
+        for j, (v, t, why) in enumerate(pairs):
+            if lo <= t <= hi:
+                k += 1
+                c = {'op': 'unique', 'ft': ft, 'level': 'h5' if k % 5 == 0 else 'mem', 'col': [v, t, small[0], v],
+                     'flags': [1, 1, 1] if j % 2 == 0 else FLAGS8[j % 8]}
+                if ft == 'cat':
+                    c['keys'] = sorted({v, t, small[0], 0})
+                yield c
         # all pairs at once: every v in the column, every t looked up
         vs = list(dict.fromkeys(v for v, _, _ in pairs))
         ts_ = list(dict.fromkeys(t for _, t, _ in pairs if t not in vs))
